@@ -1,5 +1,49 @@
-import Mkdb.Spec.Tables
-import Mkdb.Spec.Shape
-import Mkdb.Model.Engine
-namespace Mkdb.Store
-end Mkdb.Store
+import Mkdb.Proofs.Redo
+import Mkdb.Proofs.Wal
+/-!
+# C02 — acknowledged statements survive a crash between statements
+
+Property theorems only.  Two layers are proved:
+
+* the redo rule (`Mkdb.Redo`): for every log of page-local changes with increasing LSNs, every
+  initial state and **every** placement of page flushes (each page of the data file is the cached
+  page as of an arbitrary earlier moment: never flushed, flushed after any statement, always
+  flushed), replaying the log reproduces exactly the state the statements had built, page by page;
+  replaying again changes nothing;
+* the log file (`Mkdb.Wal`): what the statements appended is what recovery reads.
+
+Not covered by a theorem (partial): records that change more than one page (a tree insert that
+splits, the catalog re-pointing that follows a root move, page allocation) and the header counters;
+for those the concrete model `Mkdb.Engine.recover` is compared with the implementation on crash
+images after every statement under every flush placement the harness generates.
+-/
+namespace Mkdb.Redo
+variable {α : Type}
+
+/-- **C02.recovery_reconstructs**: whatever subset of the pages had reached the data file, and
+whenever each of them did, replay of the whole log yields exactly the pages the acknowledged
+statements had produced in the cache. -/
+theorem C02_recovery_reconstructs (log : List (Rec α)) (init : Pages α) (k : Nat → Nat) (h : LogOK log init) :
+    ∀ p, replay log (Image log init k) p = run log init p := replay_image log init k h
+
+/-- **C02.recovery_idempotent**: running recovery again changes nothing. -/
+theorem C02_recovery_idempotent (log : List (Rec α)) (init : Pages α) (k : Nat → Nat) (h : LogOK log init) :
+    ∀ p, replay log (replay log (Image log init k)) p = replay log (Image log init k) p :=
+  replay_idempotent log init k h
+
+/-- **C02.clean_shutdown**: the special case "flush, then crash": replay over fully flushed pages is
+the identity. -/
+theorem C02_clean_shutdown (log : List (Rec α)) (init : Pages α) (h : LogOK log init) :
+    ∀ p, replay log (run log init) p = run log init p := replay_run log init h
+
+/-- non-vacuity: a two-record log on one page satisfies the hypothesis -/
+example : LogOK exLog exInit := exLog_ok
+
+end Mkdb.Redo
+
+namespace Mkdb.Wal
+/-- **C02.log_roundtrip**: the records a statement appended (each followed by fsync) are exactly the
+records start-up recovery reads. -/
+theorem C02_log_roundtrip (rs : List Rec) (h : ∀ r ∈ rs, r.wf) :
+    readLog (encodeLog rs) = .ok rs (encodeLog rs).length false := readLog_encodeLog rs h
+end Mkdb.Wal
